@@ -92,6 +92,7 @@ def body(cap, it):
     c.extra['keyprefix'] = 'euler:'
     c.extra['recip_witnesses'] = True
     c.extra['ring'] = it
+    c.extra['numpy_int_semantics'] = True       # plain numpy code on a uint16 column: narrow integer arrays keep their dtype and wrap
     c.extra['sample'] = case
     code = Sym(c.input('code', z3.IntSort()))
     ir = c.input('ir', z3.IntSort())
@@ -209,6 +210,7 @@ def validate(tier):
     Rc = rebind.Rebound(chc, overrides=dict(np=npshim._Namespace('np', d)))
     for i, code in enumerate(codes):
         def b():
+            ctx().extra['numpy_int_semantics'] = True
             a = SArr((1,), 'u2', fill=None)
             real_np.ndarray.__setitem__(a, 0, int(code))
             out = Rc._unpack_euler16(a)
@@ -247,6 +249,13 @@ def chk(name, arr, want):
 chk('|major|', np.linalg.norm(major, axis=1), 1); chk('|minor|', np.linalg.norm(minor, axis=1), 1); chk('|middle|', np.linalg.norm(middle, axis=1), 1)
 chk('minor.major', (minor * major).sum(1), 0); chk('middle.major', (middle * major).sum(1), 0); chk('middle.minor', (middle * minor).sum(1), 0)
 chk('middle - minor x major', np.abs(middle - np.cross(minor, major)).max(1), 0)
+# the format is defined on integers: the decode must not depend on the integer width the codes are held in (uint16 on disk)
+wide = _unpack_euler16(codes.astype(np.int64))
+for nm_, a16, a64 in zip(('minor', 'middle', 'major'), (minor, middle, major), wide):
+    dev = np.abs(a16 - a64).max()
+    if not dev < 1e-9: bad.append(f'{{nm_}} axes decoded from uint16 codes differ from the same codes held as int64 by {{dev}} (narrow-integer wrap-around), e.g. code {{int(codes[np.argmax(np.abs(a16 - a64).max(1))])}}')
+ntri = len(set(map(tuple, np.round(np.hstack([minor, middle, major]), 9))))
+if ntri != len(codes): bad.append(f'only {{ntri}} distinct triads for {{len(codes)}} distinct codes of the family')
 print('family cap', cap, 'ring', it, ':', len(codes), 'codes; solver witness', m.get('code'))
 for b_ in bad: print('  ', b_)
 sys.exit(1 if bad else 0)
